@@ -89,7 +89,90 @@ func c45Diff(a, b *hs) string {
 // ---- structured generators
 
 func gBytes(rt *rapid.T, min, max int, label string) []byte {
+	// rapid favours short slices; every length prefix has its own boundaries, so pick
+	// boundary lengths (max, max-1, 255..257) explicitly now and then
+	if max > 8 && rapid.IntRange(0, 5).Draw(rt, label+"-edge") == 0 {
+		cands := []int{max}
+		for _, c := range []int{max - 1, 255, 256, 257} {
+			if c >= min && c <= max {
+				cands = append(cands, c)
+			}
+		}
+		n := rapid.SampledFrom(cands).Draw(rt, label+"-len")
+		return patternBytes(n, rapid.Byte().Draw(rt, label+"-salt"))
+	}
 	return rapid.SliceOfN(rapid.Byte(), min, max).Draw(rt, label)
+}
+
+// c45CraftHello builds a client/server hello by hand: fixed part plus a list of
+// extensions whose bodies are the shapes length-prefixed parsers trip over
+// (empty, lone zero bytes, vectors whose inner length is exact / one short /
+// one long, nested u16+u8 vectors).
+func c45CraftHello(rt *rapid.T, kind string) []byte {
+	var b []byte
+	b = append(b, 3, rapid.Byte().Draw(rt, "minor"))
+	b = append(b, patternBytes(32, 7)...)
+	sid := rapid.SliceOfN(rapid.Byte(), 0, 4).Draw(rt, "sid")
+	b = append(b, byte(len(sid)))
+	b = append(b, sid...)
+	if kind == "clientHello" {
+		b = append(b, 0, 2, 0xc0, 0x2f, 1, 0)
+	} else {
+		b = append(b, 0xc0, 0x2f, 0)
+	}
+	ids := []int{0, 5, 10, 11, 13, 16, 21, 35, 13172, 0xff01, 0xff02, 0x1234}
+	var exts []byte
+	n := rapid.IntRange(0, 3).Draw(rt, "next")
+	for i := 0; i < n; i++ {
+		id := rapid.SampledFrom(ids).Draw(rt, "extid")
+		x := rapid.SliceOfN(rapid.Byte(), 0, 6).Draw(rt, "x")
+		var body []byte
+		switch rapid.IntRange(0, 13).Draw(rt, "shape") {
+		case 0:
+		case 1:
+			body = []byte{0}
+		case 2:
+			body = []byte{0, 0}
+		case 3:
+			body = []byte{0, 0, 0}
+		case 4:
+			body = append(u16(len(x)), x...)
+		case 5:
+			body = append(u16(len(x)+1), x...)
+		case 6:
+			body = append(u16(len(x)+2), x...)
+		case 7:
+			body = append([]byte{byte(len(x))}, x...)
+		case 8:
+			body = append([]byte{byte(len(x) + 1)}, x...)
+		case 9: // u16 outer, u8 inner (ALPN / server_name shapes)
+			inner := append([]byte{byte(len(x))}, x...)
+			body = append(u16(len(inner)), inner...)
+		case 10:
+			inner := append([]byte{0}, append(u16(len(x)), x...)...)
+			body = append(u16(len(inner)), inner...)
+		case 11: // list of u8-prefixed strings whose last entry claims one byte more than is left
+			inner := append([]byte{2, 'h', '2', byte(len(x) + 1)}, x...)
+			body = append(u16(len(inner)), inner...)
+		case 12: // well-formed list of u8-prefixed strings
+			inner := append([]byte{2, 'h', '2', byte(len(x))}, x...)
+			body = append(u16(len(inner)), inner...)
+		default:
+			body = x
+		}
+		exts = append(exts, u16(id)...)
+		exts = append(exts, u16(len(body))...)
+		exts = append(exts, body...)
+	}
+	if n > 0 || rapid.Bool().Draw(rt, "emptyexts") {
+		b = append(b, u16(len(exts))...)
+		b = append(b, exts...)
+	}
+	typ := byte(1)
+	if kind == "serverHello" {
+		typ = 2
+	}
+	return append([]byte{typ, byte(len(b) >> 16), byte(len(b) >> 8), byte(len(b))}, b...)
 }
 
 func gProto(rt *rapid.T, label string) string {
@@ -391,6 +474,10 @@ func TestC45(t *testing.T) {
 					ff[i] = 0xff
 				}
 				c45Bytes(t, rec, k, hasSig, ff, "ffs")
+				if n >= 4 {
+					c45Bytes(t, rec, k, hasSig, c45FixLen(make([]byte, n)), "zeros-fixlen")
+					c45Bytes(t, rec, k, hasSig, c45FixLen(append([]byte(nil), ff...)), "ffs-fixlen")
+				}
 			}
 		}
 	}
@@ -420,6 +507,11 @@ func TestC45(t *testing.T) {
 				mk = "cross-type"
 			}
 			c45Bytes(rt, rec, k2, hasSig != (rapid.IntRange(0, 9).Draw(rt, "sigflip") == 0), b, mk)
+		}
+		if kind == "clientHello" || kind == "serverHello" {
+			for i := 0; i < 3; i++ {
+				c45Bytes(rt, rec, kind, false, c45CraftHello(rt, kind), "crafted-extensions")
+			}
 		}
 		if rapid.IntRange(0, 3).Draw(rt, "rand") == 0 {
 			c45Bytes(rt, rec, kind, rapid.Bool().Draw(rt, "hassig2"), gBytes(rt, 0, 200, "randbytes"), "random")
